@@ -60,6 +60,13 @@ func c07Hist(ctx *Ctx, idx int) *Hist {
 	}
 	hc := HistCfg{Steps: r.Range(10, 30), NColls: r.Range(1, 2), NKeys: r.Range(4, 10), KeyClass: gen.KeysShort, ValClass: gen.ValsMixed,
 		Prio: gen.PrioRegime(r.Intn(int(gen.NumPrioRegimes))), Mix: mixC07, MaxSnaps: 2}
+	if idx%8 == 5 {
+		// a recycling item allocator (C15/C17 style): an item released once too often on an error
+		// path is wiped while still in use, or takes its count below zero
+		cfg.CB = 0
+		cfg.RefMon, cfg.Recycle = true, true
+		ctx.Stats["c07.recycling-allocator-cases"]++
+	}
 	if idx%5 == 3 {
 		// keys longer than one read-ahead unit are loaded with more than one ReadAt
 		hc.KeyClass, hc.NKeys = gen.KeysLong, r.Range(4, 6)
@@ -69,7 +76,13 @@ func c07Hist(ctx *Ctx, idx int) *Hist {
 	// a durable start so that early operations already read the file
 	for i := 0; i < 4 && !h.E.Failed(); i++ {
 		n := h.Names[0]
-		h.E.SetItem(n, h.key(n, 0), h.nextVal(), h.Prios.Next(r), false)
+		v := h.nextVal()
+		if idx%4 == 2 && i < 2 {
+			// values longer than any buffer: whatever pieces they are read in, each read can fail
+			v = append(v, r.Bytes([]int{65536, 150000, 131072}[(idx/4+i)%3]-len(v))...)
+			ctx.Stats["c07.big-values"]++
+		}
+		h.E.SetItem(n, h.key(n, 0), v, h.Prios.Next(r), false)
 	}
 	h.E.Flush()
 	h.E.Reopen(true)
